@@ -42,7 +42,7 @@ RULE = ("type-directed random formulas and terms of every sort (Bool/Int/Real/BV
         "distinct nodes and depth 40 000 (thorough 240 000 / 120 000), Boolean structure with re-binding "
         "quantifiers nested 3 500 levels (12 000), sorts nested 1 500 levels (3 000) -- arrays and instances of a "
         "declared unary sort, on free symbols, a bound variable, a function signature --, and a session of 7 500 "
-        "(40 000) formulas with ten new nodes each on ONE environment sharing the oldest symbols and old atoms; "
+        "(25 000) formulas with ten new nodes each on ONE environment sharing the oldest symbols and old atoms; "
         "every oracle (fv, atoms, qf, types in both modes, six sizes) on each.")
 ASSUMPTIONS = [
     "a bare function-typed symbol used as a term (Symbol('f', FunctionType(..)) itself) is outside the Lean model "
@@ -1195,7 +1195,7 @@ def extreme_session(ctx, n):
 
 def check_extreme(ctx, quick, only=None):
     plan = [("chain", 40000 if quick else 120000), ("boolchain", 3500 if quick else 12000), ("boolchain", 800),
-            ("sorts", 1500 if quick else 3000), ("session", 7500 if quick else 40000)]
+            ("sorts", 1500 if quick else 3000), ("session", 7500 if quick else 25000)]
     fns = {"chain": extreme_chain, "boolchain": extreme_boolchain, "sorts": extreme_sorts,
            "session": extreme_session}
     for kind, n in plan:
